@@ -1,12 +1,14 @@
 """C08 — publish/subscribe: a fired event reaches exactly its subscribers, once, in order.
 
-Tie: operation sequences (with listeners that re-enter the producer from inside
-notify: subscribe, the unsubscribe forms, nested fire, raise) and payload x
-metadata combinations are run on the real EventProducer / Event / TimedEvent /
-EventType of /repo and on the Gallina model PubSub.Model inside coqc; the flat
-observation stream (deliveries with listener, event type, payload identity and
-timestamp; has_listeners answers; return / exception class of every outermost
-call) must agree.  A monitor that is independent of the Coq model (a reference
+Tie: operation sequences over several producers (with listeners that re-enter
+the producers from inside notify: subscribe, the unsubscribe forms, nested fire
+- also on another producer -, raise), payload x metadata combinations and
+EventType construction sequences are run on the real EventProducer / Event /
+TimedEvent / EventType of /repo and on the Gallina models PubSub.Model /
+PubSub.TypeModel inside coqc; the flat observation stream (deliveries with the
+ordinal of the delivering fire invocation, listener, event type, payload
+identity and timestamp; has_listeners answers; return / exception class of
+every outermost call) must agree.  A monitor that is independent of the Coq model (a reference
 subscription map updated alongside the real calls, and a reference acceptance
 rule for payloads) evaluates the property's clauses on the implementation's
 behaviour, classifies disagreements and drives the search for / shrinking of a
@@ -400,6 +402,18 @@ def run_impl(case):
     return trace, findings, ctx
 
 
+def fresh_findings(case, timeout=30):
+    """run one case on the implementation in a fresh interpreter (no state left by earlier cases);
+    -> list of [signature, what], or None if the run itself failed"""
+    import subprocess
+    try:
+        pr = subprocess.run([C.PY, str(Path(__file__).resolve()), "--case-stdin"], input=json.dumps(case),
+                            capture_output=True, text=True, timeout=timeout, env=C.child_env())
+        return json.loads(pr.stdout) if pr.returncode == 0 else None
+    except Exception:  # noqa
+        return None
+
+
 def run_ctor(cases):
     """Event / TimedEvent construction alone. -> list of accepted? (True/False/'other:<exc>')"""
     import pydsol.core.pubsub as ps
@@ -643,7 +657,7 @@ def ctor_space(tier: str, rng: random.Random):
     # timestamps: every timestamp kind against a sample of the above
     sample = rng.sample(full, min(len(full), 300 if tier == "quick" else 4000))
     timed = [(md, ts, c, chk) for (md, _, c, chk) in sample for ts in tss[1:]]
-    limit = 3000 if tier == "quick" else 10 ** 9
+    limit = 2400 if tier == "quick" else 10 ** 9
     if len(full) > limit:
         # keep every (metadata, check) x shape class at least once, sample the rest
         full = rng.sample(full, limit)
@@ -811,7 +825,7 @@ def main(tier: str) -> int:
         "Python object identity / isinstance abstracted: listeners and event types are numbered objects, payload values are "
         "represented by their exact class in a 10-class lattice (object, int, bool<=int, float, str, NoneType, list, dict, Base, Derived<=Base)",
         "listener behaviour = a finite queue of scripts (the k-th notification performs the k-th script); exceptions raised in "
-        "notify propagate (no try/except in listeners); single-threaded use of one producer",
+        "notify propagate (no try/except in listeners); any number of producers sharing event types and listeners, used from one thread",
     ])
     mark("build_and_props_recheck")
     C.use_repo_sources()
@@ -822,8 +836,8 @@ def main(tier: str) -> int:
                       {}, found_input=False)
         return run.finish()
     rng = random.Random(run.seed * 104729 + 8)
-    n_random = 3000 if tier == "quick" else 60000
-    n_mal = 800 if tier == "quick" else 12000
+    n_random = 2400 if tier == "quick" else 40000
+    n_mal = 600 if tier == "quick" else 10000
     exh_len = 3 if tier == "quick" else 4
 
     cases = []
@@ -848,6 +862,7 @@ def main(tier: str) -> int:
     n_nested = 0
     n_cross = 0
     first_bad = None
+    bad_cases = []
     for case in cases:
         try:
             trace, findings, ctx = run_impl(case)
@@ -868,6 +883,8 @@ def main(tier: str) -> int:
             nontrivial.add(json.dumps(case, sort_keys=True))
         if findings and first_bad is None:
             first_bad = (case, findings)
+        if findings and len(bad_cases) < 60:
+            bad_cases.append(case)
         done.append((case, trace))
 
     mark("op_sequences_on_impl")
@@ -889,7 +906,7 @@ def main(tier: str) -> int:
     mark("constructor_space_on_impl")
     # ---- EventType constructions (defining sites, names, metadata declarations) + events against them
     me = sys.modules[__name__]
-    n_t = 1200 if tier == "quick" else 20000
+    n_t = 900 if tier == "quick" else 15000
     tdone = []
     t_bad = None
     t_hist = collections.Counter()
@@ -943,12 +960,41 @@ def main(tier: str) -> int:
                 return False
             return any(s == sig for s, _ in f)
         small = shrink(case, failing)
+        # the replay must stand on its own: confirm it in a fresh interpreter; if it only failed because of
+        # state left behind by earlier cases, shrink again with fresh interpreters (bounded time)
+        note = None
+        ff = fresh_findings(small)
+        if ff is not None and not any(s_ == sig for s_, _ in ff):
+            t_end = _t.time() + (60 if tier == "quick" else 240)
+            standalone = None
+            for cand in bad_cases:
+                if _t.time() > t_end - 30:
+                    break
+                fo = fresh_findings(cand)
+                if fo:
+                    standalone = (cand, fo[0][0])
+                    break
+            if standalone:
+                case, sig = standalone
+
+                def failing_fresh(c):
+                    if _t.time() > t_end:
+                        return False
+                    r_ = fresh_findings(c)
+                    return bool(r_) and any(s_ == sig for s_, _ in r_)
+                small = shrink(case, failing_fresh)
+            else:
+                note = ("fails only after earlier cases ran in the same interpreter (state leaks between EventProducer "
+                        "instances / cases); on a fresh interpreter this input alone passes")
         tr, f, _ = run_impl(small)
-        what = [w for s, w in f if s == sig][0]
-        run.violation(sig, what, {"case": small, "impl_observations": tr,
-                                  "how": "harness/c08.py run_impl(case): env = metadata per event type, scripts[l] = programs listener l "
-                                         "performs on its successive notifications, ops = outermost calls; every op names the producer "
-                                         "(second field) it is called on; ./check C08 --replay <this file> re-runs it"})
+        what = ([w for s_, w in f if s_ == sig] or [findings[0][1]])[0]
+        rep = {"case": small, "impl_observations": tr,
+               "how": "harness/c08.py run_impl(case): env = metadata per event type, scripts[l] = programs listener l "
+                      "performs on its successive notifications, ops = outermost calls; every op names the producer "
+                      "(second field) it is called on; ./check C08 --replay <this file> re-runs it"}
+        if note:
+            rep["note"] = note
+        run.violation(sig, what, rep)
     if ctor_bad:
         impl_fail = True
         (md, ts, c, chk), acc, exp = ctor_bad
@@ -1057,4 +1103,10 @@ def replay(path: str) -> int:
 
 
 if __name__ == "__main__":
+    if len(sys.argv) > 1 and sys.argv[1] == "--case-stdin":
+        C.use_repo_sources()
+        _case = json.loads(sys.stdin.read())
+        _, _f, _ = run_impl(_case)
+        print(json.dumps([[a, b] for a, b in _f]))
+        sys.exit(0)
     sys.exit(main(sys.argv[1] if len(sys.argv) > 1 else "quick"))
